@@ -186,6 +186,9 @@ def insertOff (offs : List (Int × Entry)) (k : Int) (e : Entry) : List (Int × 
   if offs.any (fun p => p.1 == k) then offs.map (fun p => if p.1 == k then (k, e) else p)
   else offs ++ [(k, e)]
 
+/-- A stored `(strmid, pos, genno)` tuple as an `Entry`. -/
+def mkEntry (t : Option Nat × Nat × Nat) : Entry := ⟨t.1, t.2.1, t.2.2⟩
+
 /-- The `for objid in range(start, start + nobjs)` loop; returns offsets, rest, position. -/
 def tableEntries : Nat → Int → Bytes → Nat → List (Int × Entry) → Except Err (List (Int × Entry) × Bytes × Nat)
   | 0, _, rest, pos, offs => .ok (offs, rest, pos)
@@ -196,15 +199,21 @@ def tableEntries : Nat → Int → Bytes → Nat → List (Int × Entry) → Exc
       let f := splitSp (strip line)
       if f.length != entryFields then .error .noValidXRef else
       match f with
-      | [p, g, u] =>
+      | [f0, f1, f2] =>
+        -- which field is the offset / generation / marker, and the stored tuple: regenerated from the source
+        let t := entryTuple f0 f1 f2
         let offs' :=
-          if u == inUseMarker then
-            match parseInt p, parseInt g with
-            | some pi, some gi => if 0 ≤ pi ∧ 0 ≤ gi then insertOff offs objid ⟨none, pi.toNat, gi.toNat⟩ else offs
+          if t.2.2 == inUseMarker then
+            match parseInt t.1, parseInt t.2.1 with
+            | some pi, some gi =>
+              if 0 ≤ pi ∧ 0 ≤ gi then insertOff offs objid (mkEntry (tableEntryOf pi.toNat gi.toNat)) else offs
             | _, _ => offs
           else offs
         tableEntries cnt (objid + 1) (rest.drop k) (pos + k) offs'
       | _ => .error .unmodelled      -- `(pos_b, genno_b, use_b) = f` with a field count other than 3
+
+/-- Number of iterations of `for objid in range(first, stop)` (bounds regenerated from the source). -/
+def subCount (start nobjs : Int) : Nat := (subsectionStop start nobjs - subsectionFirst start nobjs).toNat
 
 /-- `PDFXRef.load` up to (not including) the trailer: the `while True` loop over subsections.
 `rest` is the unread file from `pos`.  Returns the offsets and the position of the `trailer` line. -/
@@ -223,7 +232,7 @@ def tableLoop : Nat → Bytes → Nat → List (Int × Entry) → Except Err (Li
         | [a, b] =>
           match parseInt a, parseInt b with
           | some start, some nobjs =>
-            match tableEntries nobjs.toNat start (rest.drop k) (pos + k) offs with
+            match tableEntries (subCount start nobjs) (subsectionFirst start nobjs) (rest.drop k) (pos + k) offs with
             | .error e => .error e
             | .ok (offs', rest', pos') => tableLoop fuel rest' pos' offs'
           | _, _ => .error .noValidXRef
